@@ -59,6 +59,12 @@ pub open spec fn exact_faults<D: Buf, E>(rem: u64, item: Poll<Option<Result<D, E
 pub open spec fn exact_identity<D: Buf, E>(item: Poll<Option<Result<D, E>>>, r: Poll<Option<Result<D, E>>>) -> bool {
     r matches Poll::Ready(Some(Ok(_))) ==> r == item
 }
+/// C02 projection, other direction: a chunk that fits into what is still owed is passed on (not swallowed, delayed or
+/// replaced by an error), and a stream that is merely pending stays pending.
+pub open spec fn exact_passes_on<D: Buf, E>(rem: u64, item: Poll<Option<Result<D, E>>>, r: Poll<Option<Result<D, E>>>) -> bool {
+    &&& (item matches Poll::Ready(Some(Ok(d))) && d.bytes().len() <= rem ==> r == item)
+    &&& (item is Pending ==> r is Pending)
+}
 /// C20 projection: nothing but the end comes out once everything was delivered and the entity stream has ended.
 pub open spec fn exact_stays_ended<D: Buf, E>(rem: u64, item: Poll<Option<Result<D, E>>>, r: Poll<Option<Result<D, E>>>) -> bool {
     (rem == 0 && item matches Poll::Ready(None)) ==> r matches Poll::Ready(None)
@@ -80,6 +86,7 @@ impl<D: Buf, E: FromBoxError> ExactLenStream<D, E> {
             /*@C01,C12 #exact_accounting*/ acct_rel(old(self).remaining, r, final(self).remaining),
             /*@C07 #exact_faults*/ exact_faults(old(self).remaining, old(self).stream.next_item(), r),
             /*@C02 #exact_identity*/ exact_identity(old(self).stream.next_item(), r),
+            /*@C02 #exact_passes_on*/ exact_passes_on(old(self).remaining, old(self).stream.next_item(), r),
             /*@C20 #exact_stays_ended*/ exact_stays_ended(old(self).remaining, old(self).stream.next_item(), r),
             /*@C02,C07 #stream_advanced*/ final(self).stream == old(self).stream.after(),
     //@body
@@ -239,6 +246,7 @@ impl<D: DataT, E: FromBoxError> BodyStream<D, E> {
             /*@C01,C12 #dispatch_exact_accounting*/ *old(self) matches BodyStream::ExactLen(s0) ==> (*final(self) matches BodyStream::ExactLen(s1) && acct_rel(s0.remaining, r, s1.remaining)),
             /*@C07 #dispatch_exact_faults*/ *old(self) matches BodyStream::ExactLen(s0) ==> exact_faults(s0.remaining, s0.stream.next_item(), r),
             /*@C02 #dispatch_exact_identity*/ *old(self) matches BodyStream::ExactLen(s0) ==> exact_identity(s0.stream.next_item(), r),
+            /*@C02 #dispatch_exact_passes_on*/ *old(self) matches BodyStream::ExactLen(s0) ==> exact_passes_on(s0.remaining, s0.stream.next_item(), r),
             /*@C20 #dispatch_exact_stays_ended*/ *old(self) matches BodyStream::ExactLen(s0) ==> exact_stays_ended(s0.remaining, s0.stream.next_item(), r),
             /*@C01,C12 #dispatch_multipart_accounting*/ *old(self) matches BodyStream::Multipart(s0) ==> (*final(self) matches BodyStream::Multipart(s1)
                 && acct_rel(s0.remaining, r, s1.remaining)),
